@@ -207,6 +207,7 @@ def list_ops(inner):
         st.tuples(st.just("append"), it), st.tuples(st.just("append"), it),
         st.tuples(st.just("extend"), its), st.tuples(st.just("insert"), IDX, it), st.tuples(st.just("insert"), IDX, it),
         st.tuples(st.just("iadd"), its), st.tuples(st.just("imul"), st.integers(-1, 3)),
+        st.tuples(st.just("imul_idx"), st.integers(-1, 3)),          # the multiplier is an integer-like object (only __index__)
         st.tuples(st.just("pop"), IDX), st.tuples(st.just("pop"), IDX), st.tuples(st.just("remove"), it),
         st.tuples(st.just("sort")), st.tuples(st.just("reverse")), st.tuples(st.just("clear")),
         st.tuples(st.just("setitem"), IDX, it), st.tuples(st.just("delitem"), IDX), st.tuples(st.just("delitem"), IDX),
@@ -227,6 +228,16 @@ def dict_ops(k, v):
         st.tuples(st.just("assign"), pairs), st.tuples(st.just("assign_other"), st.sampled_from([None, 5, [1]])),
         st.tuples(st.just("assign_copy"), pairs), st.tuples(st.just("assign_twin"), pairs),
     ).map(list)
+
+
+class _Idx:
+    """An integer-like object: it has __index__ and nothing else numeric."""
+
+    def __init__(self, n):
+        self.n = n
+
+    def __index__(self):
+        return self.n
 
 
 def set_ops(inner):
@@ -286,7 +297,7 @@ def m_list(m, op, c):
         v = c(op[2]); m.insert(op[1], v)
     elif k == "iadd":
         m += [c(x) for x in op[1]]
-    elif k == "imul":
+    elif k in ("imul", "imul_idx"):
         m *= op[1]
     elif k == "pop":
         m.pop(op[1])
@@ -323,6 +334,8 @@ def r_list(l, op):
         l += op[1]
     elif k == "imul":
         l *= op[1]
+    elif k == "imul_idx":
+        l *= _Idx(op[1])
     elif k == "pop":
         l.pop(op[1])
     elif k == "remove":
@@ -645,7 +658,7 @@ def run(case, ctx):
         if m_reject:
             interesting = True
             ctx.label("illegal-by-model")
-        if kind == "list" and tspec[3] < BIG and k in ("append", "extend", "insert", "iadd", "imul", "pop", "remove",
+        if kind == "list" and tspec[3] < BIG and k in ("append", "extend", "insert", "iadd", "imul", "imul_idx", "pop", "remove",
                                                          "clear", "delitem", "setslice", "delslice"):
             if len(model) in (tspec[2], tspec[3], tspec[3] - 1):
                 interesting = True
